@@ -22,6 +22,7 @@ import (
 // mechanism per hazardous lexeme by folding P on that lexeme's first byte.
 
 type semiGuard struct {
+	c         *Ctx
 	flag      *types.Var
 	setterOK  bool
 	closer    *ssa.Function
@@ -38,7 +39,7 @@ func (c *Ctx) semiGuard() *semiGuard {
 		return c.sguard
 	}
 	c.buildSSA()
-	g := &semiGuard{}
+	g := &semiGuard{c: c}
 	c.sguard = g
 	semiW := c.fn("(*ast.CodeWriter).WriteSemi")
 	pretty := c.fieldByName("ast", "CodeWriter", "PrettyPrint")
@@ -314,6 +315,29 @@ func (c *Ctx) semiGuard() *semiGuard {
 
 // covers: a statement whose first lexeme is y gets the omitted ';' written in front of it.
 func (g *semiGuard) covers(y *lexd) bool {
+	if g.coversByShape(y) {
+		return true
+	}
+	// not in the recognised shape: fold the prologue of the writer of y with the flag set (wfold.go)
+	if g == nil || g.c == nil || g.flag == nil || !g.setterOK || y.via == "" || y.first.count() == 0 || y.first.count() > 4 {
+		return false
+	}
+	for b := 0; b < 256; b++ {
+		if !y.first.has(byte(b)) {
+			continue
+		}
+		if b >= 0x80 {
+			return false
+		}
+		cl, ok := g.c.writerClosesStatement(y.via, g.flag, byte(b))
+		if !ok || !cl {
+			return false
+		}
+	}
+	return true
+}
+
+func (g *semiGuard) coversByShape(y *lexd) bool {
 	if g == nil || g.closer == nil || g.pred == nil || !g.setterOK || len(g.problems) > 0 {
 		return false
 	}
